@@ -1,6 +1,7 @@
 package tlog
 
 import (
+	"bytes"
 	"io"
 
 	"github.com/bluenviron/gomavlib/v3/pkg/dialect"
@@ -22,12 +23,13 @@ type Writer struct {
 	//
 
 	frameWriter *frame.Writer
+	frameBuf    bytes.Buffer
 }
 
 // Initialize initializes Writer.
 func (w *Writer) Initialize() error {
 	w.frameWriter = &frame.Writer{
-		ByteWriter: w.ByteWriter,
+		ByteWriter: &w.frameBuf,
 		DialectRW:  w.DialectRW,
 	}
 	err := w.frameWriter.Initialize()
@@ -40,6 +42,14 @@ func (w *Writer) Initialize() error {
 
 // Write writes a telemetry log entry.
 func (w *Writer) Write(entry *Entry) error {
+	// encode the frame first, in order not to leave a partial entry
+	// in the log when the frame cannot be encoded
+	w.frameBuf.Reset()
+	err := w.frameWriter.Write(entry.Frame)
+	if err != nil {
+		return err
+	}
+
 	epoch := entry.Time.UnixMicro()
 	buf := []byte{
 		byte(epoch >> 56),
@@ -51,15 +61,6 @@ func (w *Writer) Write(entry *Entry) error {
 		byte(epoch >> 8),
 		byte(epoch),
 	}
-	_, err := w.ByteWriter.Write(buf)
-	if err != nil {
-		return err
-	}
-
-	err = w.frameWriter.Write(entry.Frame)
-	if err != nil {
-		return err
-	}
-
-	return nil
+	_, err = w.ByteWriter.Write(append(buf, w.frameBuf.Bytes()...))
+	return err
 }
